@@ -22,6 +22,7 @@ import (
 	"reflect"
 	"runtime"
 	"sort"
+	"strings"
 	"sync"
 )
 
@@ -175,6 +176,11 @@ func checkNumbers(v any) {
 func SafeExec(m *Module, c Case) (out Case) {
 	defer func() {
 		if r := recover(); r != nil {
+			if msg := fmt.Sprint(r); strings.HasPrefix(msg, "harness:") {
+				// a defect of the harness itself is never a verdict about the code under test
+				fmt.Fprintln(os.Stderr, "HARNESS-BUG:", msg)
+				os.Exit(2)
+			}
 			buf := make([]byte, 2048)
 			buf = buf[:runtime.Stack(buf, false)]
 			out = Case{"panic": fmt.Sprint(r), "stack": string(buf)}
